@@ -8,6 +8,7 @@ def jobs(tier):
     out = []
     for op in range(4):
         out.append(dict(name='binary_op%d' % op, src='h_udqset.cpp', defs={'OPK': op}, entry='h_binary', tus=TUS, fp='real', loopmax=2000, maxsteps=40000000, bounds='operator %s' % '+-*/'[op]))
+        out.append(dict(name='binary_op%d_groups' % op, src='h_udqset.cpp', defs={'OPK': op, 'GROUPSET': 1}, entry='h_binary', tus=TUS, fp='real', loopmax=2000, maxsteps=40000000, bounds='operator %s, group sets' % '+-*/'[op]))
     out.append(dict(name='reductions', src='h_udqset.cpp', defs={}, entry='h_reductions', tus=TUS, fp='real', loopmax=2000, maxsteps=40000000, partial_sites=False))
     out.append(dict(name='elemental', src='h_udqset.cpp', defs={}, entry='h_elemental', tus=TUS, fp='real', loopmax=2000, maxsteps=40000000))
     out.append(dict(name='union', src='h_udqset.cpp', defs={}, entry='h_union', tus=TUS, fp='real', loopmax=2000, maxsteps=40000000))
